@@ -26,7 +26,8 @@ STUB_COMPONENTS = ["threading.Lock/Thread as seen by in_memory.py (SimLock/SimTh
 ASSUMPTIONS = ["a thread switch inside a single C call (deque.append, dict get/set, list(d.items())) is not modelled; switches "
                "happen at line boundaries of the transport modules, including inside the defaultdict factory lambda",
                "per-consumer order only: cross-consumer receive order is not observable without perturbing the schedule"]
-REQUIRED_PROBES = ["switch_inside_transport", "two_publishers_same_fresh_channel", "wildcard_subscription", "callback_mode"]
+REQUIRED_PROBES = ["switch_inside_transport", "two_publishers_same_fresh_channel", "wildcard_subscription", "callback_mode",
+                   "subscription_closed_early"]
 CONFIG = {
     "quick": {"runs": 60000, "budget_s": 240, "timeout_s": 20, "per_fork": 25},
     "thorough": {"runs": 3000000, "budget_s": 1500, "timeout_s": 20, "per_fork": 50},
@@ -57,7 +58,8 @@ def generate(rng: random.Random, tier: str, seed: int) -> dict:
     subs = []
     for _ in range(nsub):
         subs.append({"pattern": rng.choice(PATTERNS), "rounds": rng.randint(1, 3), "callback": rng.random() < 0.2,
-                     "pause": rng.choice([0.0, 0.0005, 0.003])})
+                     "pause": rng.choice([0.0, 0.0005, 0.003]),
+                     "close_after": rng.choice([None, None, None, 1, 2])})   # close() the subscription after k messages
     return {"existing": existing, "pubs": pubs, "subs": subs, "strategy": rng.choice(threads.STRATEGIES),
             "sched_seed": rng.getrandbits(48), "choices": None}
 
@@ -111,8 +113,13 @@ def execute(sc: dict, seed: int) -> dict:
                         tr.subscribe(spec["pattern"], callback=lambda m, w=cbname: take(m, w))
                     else:
                         sub = tr.subscribe(spec["pattern"])
+                        taken = 0
                         for msg in sub:
                             take(msg)
+                            taken += 1
+                            if spec.get("close_after") is not None and taken >= spec["close_after"]:
+                                sub.close()          # early close: what was not taken must stay available to others
+                                sched.probe("early_close")
                         sub.close()
                     if spec["pause"]:
                         threads.sim_sleep(spec["pause"])
@@ -178,6 +185,8 @@ def execute(sc: dict, seed: int) -> dict:
         stats["probe.wildcard_subscription"] = 1
     if any(s["callback"] for s in sc["subs"]):
         stats["probe.callback_mode"] = 1
+    if sched.probes.get("early_close"):
+        stats["probe.subscription_closed_early"] = 1
     if sched.probes.get("line_in_lambda"):
         stats["probe.line_in_queue_creation_lambda"] = 1
     stats["steps"] = sched.steps
@@ -214,7 +223,7 @@ def shrink_candidates(sc: dict):
     if sc["existing"]:
         yield dict(sc, existing=[])
     for i, s in enumerate(sc["subs"]):
-        if s["rounds"] > 1 or s["callback"] or s["pause"]:
-            yield dict(sc, subs=sc["subs"][:i] + [dict(s, rounds=1, callback=False, pause=0.0)] + sc["subs"][i + 1:])
+        if s["rounds"] > 1 or s["callback"] or s["pause"] or s.get("close_after"):
+            yield dict(sc, subs=sc["subs"][:i] + [dict(s, rounds=1, callback=False, pause=0.0, close_after=None)] + sc["subs"][i + 1:])
     if sc["strategy"].get("kind") != "pct" or sc["strategy"].get("d", 0) > 1:
         yield dict(sc, strategy={"kind": "pct", "d": 1})
